@@ -230,11 +230,13 @@ func project(kind string, obj runtime.Object) absObj {
 // apiserver-runtime/pkg/registry/rest.go (status store: DefaultStatusRESTStrategy{o.RESTStrategy})
 func strategies(kind string) (main rest.RESTCreateUpdateStrategy, status rest.RESTUpdateStrategy) {
 	switch kind {
-	case "uc", "rls":
+	case "uc": // as SERVED (wiring.go)
+		return wiring["uc"].main, wiring["uc"].status
+	case "rls": // a RateLimitCondition under the strategies of a kind with a status subresource (what UpstreamCluster is registered with)
 		m := registry.ClusterScopeStorageStrategySingleton
 		return m, registry.DefaultStatusRESTStrategy{RESTCreateUpdateStrategy: m}
-	default: // "rlc": RateLimitCondition's own registered strategy
-		return registry.NewDefaultRESTStrategy(false, false), nil
+	default: // "rlc" / "rlx": RateLimitCondition as SERVED (rlx: it is served with a status subresource - the cases of "rls" apply to it)
+		return wiring["rl"].main, wiring["rl"].status
 	}
 }
 
@@ -305,7 +307,18 @@ func main() {
 	if len(os.Args) < 2 {
 		vio.Die("usage")
 	}
+	if err := loadWiring(); err != nil {
+		vio.Die("control-plane wiring: %v", err)
+	}
 	switch os.Args[1] {
+	case "served":
+		// which kinds are served with a status subresource
+		out := map[string]bool{}
+		for k, s := range wiring {
+			out[k] = s.status != nil
+		}
+		b, _ := json.Marshal(out)
+		fmt.Println(string(b))
 	case "cases":
 		w, err := vio.NewWriter(os.Args[3])
 		if err != nil {
